@@ -18,6 +18,7 @@ func init() {
 			"(C01-exists) a function that walks a list of rule peers gives no negative answer inside the loop: a non-selecting entry is skipped, `false` comes only after the list is exhausted (anchored by the type ranged over). " +
 			"(C01-shortcut) with --exposure the per-direction evaluation may answer from a policy's stored cluster-wide connections only when the other end - the source on ingress, the destination on egress - is a pod (the rule of C06-b, which is as much a condition of the connectivity section of `list --exposure`). " +
 			"(C01-asdecoded) no production function assigns to a field of a decoded API object it did not build (the namespace default excepted): what is evaluated is what the manifest says, on every path that reaches the engine. " +
+			"(C01-e-ranges) the IP partition is handed single ranges only (the rule of C05-b-ranges): a block of several ranges (a CIDR minus its excepts) that enters un-split comes out as one peer whose text - and whose reported connectivity - covers the hole between its ranges. " +
 			"NOT decided: that selector matching, port arithmetic, CIDR subtraction and the library's partition are correct; the iff itself; per-address exactness."
 		rules.FieldCoverage(p, r, "C01-a", "list", rules.ListEntries(p), append([]string{}, rules.FieldsNetpol...), "the NetworkPolicy semantics depends on it")
 		rules.DirectionCombination(p, r, "C01-b")
@@ -35,6 +36,7 @@ func init() {
 		rules.SeenSetKeyCompleteness(p, r, "C01-e-seen")
 		rules.UnconditionalIPBlockContribution(p, r, "C01-e-all")
 		rules.ObjectsEvaluatedAsDecoded(p, r, "C01-asdecoded")
+		rules.PartitionInputsAreRanges(p, r, "C01-e-ranges")
 		r.Floor("C01-a", 20)
 		r.Assume("relevant-field table written from the property statement (NetworkPolicySpec/Rule/Peer/IPBlock/Port, ContainerPort, ObjectMeta)")
 		r.Assume("endpoint roles are seeded at CheckIfAllowed and AllAllowedConnectionsBetweenWorkloadPeers: first peer parameter = source, second = destination")
